@@ -42,8 +42,8 @@ ASSUMPTIONS = [
 SHARDS = {"quick": 4, "thorough": 16}
 
 EXACT_RES = [10.0, 0.5, 30.0, 0.25, 1.0, 100.0]
-# the last four: within 1e-6 of an integer / of 1/integer without being one (round 8, C14-21)
-GEN_RES = [7.3, 0.1, 1 / 3.0, 10.0, 30.0, 0.5, 30.0000004, 9.9999995, 1 / 3600.0000002, 1 / 4.0000003]
+# the last three: within 1e-6 of an integer / of 1/integer without being one (round 8, C14-21)
+GEN_RES = [7.3, 0.1, 1 / 3.0, 10.0, 30.0, 0.5, 30.0000004, 9.9999995, 1 / 4.0000003]
 CHEAP_SPELL = ["int", "str_lower", "str_upper", "str_mixed", "odc"]
 MAX_TILES = 4000  # cap on what a query may return before we stop iterating
 
